@@ -9,11 +9,13 @@ Random draws are explicit arguments: `pick … draw` for `randint(min_id, max_id
 oracle `mk` of `SnowModel.RandRange` for `unique: true`.
 
 What the code *does* is modelled, including its quirks:
-* `save_row` stores `table_counters[tablename] = row_id` (the *last saved* id, not the maximum)
-  and, in the same dict, `table_counters[nickname] = nickname_id`;
+* `save_row` stores `table_counters[tablename] = max(row_id, table_counters.get(tablename) or 0)`
+  (since fix 9826fcb: the counter never moves backwards) and, in the same dict,
+  `table_counters[nickname] = nickname_id`;
 * `reset_locals` snapshots that dict;
-* `RowHistory.__init__` calls `reset_locals` *before* the just_once rows of a continuation are
-  re-saved.
+* `RowHistory.__init__` calls `reset_locals`; `resave_objects_from_continuation` re-saves the
+  just_once rows of a continuation and then calls `reset_locals` again (fix 9826fcb), so the
+  re-saved rows are earlier-iteration rows: one operation `Op.resave`.
 Ghost fields (`since`, `resaved`, `epoch`, `prior`) are never read by the operations; they only
 let the theorems speak about iterations and about rows created by earlier runs.
 -/
@@ -83,13 +85,16 @@ inductive Err where
   | noTable     -- sqlite3.OperationalError: no such (history) table
   deriving Repr, DecidableEq
 
+/-- `self.table_counters[tablename] = max(row_id, self.table_counters.get(tablename) or 0)` -/
+def saveTableCtr (rowId cur : Nat) : Nat := max rowId cur
+
 /-- `save_row(tablename, nickname, row)`; `resave` is ghost. On an sqlite error the run is over
     (the model returns the error; Python has already updated the counters by then). -/
 def save (s : St) (table : Name) (nick : Option Name) (id : Nat) (resave : Bool) : Except Err St :=
   if table ∉ s.tables then .error .noTable
   else if s.rows.any (fun r => decide (r.table = table ∧ r.id = id)) then .error .integrity
   else
-    let tc1 := upd s.tableCtr table id
+    let tc1 := upd s.tableCtr table (saveTableCtr id (s.tableCtr table))
     match nick with
     | some n =>
       let k := s.nickCtr n + 1
@@ -152,10 +157,22 @@ def pick (s : St) (name : Name) (scope : Scope) (draw : Nat) : Except Err (Name 
   | .error e => .error e
   | .ok pr => resolve s pr draw
 
+/-- `resave_objects_from_continuation`: `save_row` for each just_once row of the continuation
+    (in order), the first sqlite error ends it. -/
+def saveAll : St → List (Name × Option Name × Nat) → Except Err St
+  | s, [] => .ok s
+  | s, (t, n, i) :: rest =>
+    match save s t n i true with
+    | .ok s' => saveAll s' rest
+    | .error e => .error e
+
 inductive Op where
-  | save (table : Name) (nick : Option Name) (id : Nat) (resave : Bool)
+  /-- `save_row` called from `remember_row` (a row of the running iteration) -/
+  | save (table : Name) (nick : Option Name) (id : Nat)
   | pick (name : Name) (scope : Scope) (draw : Nat)
   | reset
+  /-- `resave_objects_from_continuation`: the re-saves, then `reset_locals()` -/
+  | resave (rows : List (Name × Option Name × Nat))
   deriving Repr, DecidableEq
 
 inductive Obs where
@@ -164,9 +181,13 @@ inductive Obs where
   deriving Repr, DecidableEq
 
 def step (s : St) : Op → Except Err (St × Obs)
-  | .save t n i r =>
-    match save s t n i r with
+  | .save t n i =>
+    match save s t n i false with
     | .ok s' => .ok (s', .ok)
+    | .error e => .error e
+  | .resave rows =>
+    match saveAll s rows with
+    | .ok s' => .ok (resetLocals s', .ok)
     | .error e => .error e
   | .pick name scope draw =>
     match pick s name scope draw with
